@@ -95,12 +95,13 @@ static struct state_s {
     long x_expected[4], x_done[4], x_bytes;
     /* data tags seen per peer in the current phase: puts that arrived from the peer (tag chosen by the peer) and my gets from
      * the peer (tag chosen by me): both travel peer -> me on the same communicator */
-    int put_tags[MAXR][MAXX], n_put_tags[MAXR], get_tags[MAXR][MAXX], n_get_tags[MAXR];
+    int put_tags[MAXR][MAXX], put_code[MAXR][MAXX], n_put_tags[MAXR], get_tags[MAXR][MAXX], get_code[MAXR][MAXX], n_get_tags[MAXR];
     long same_tag_same_direction;
     uint32_t cseq_out[MAXR];
     uint8_t ctl_got[MAXR][2 * MAXX + 8];
     long ctl_delivered;
     pend_t *pend_head, *pend_tail;
+    pend_t *gets_head, *gets_tail; long gets_held, gets_hold_until;   /* reproducer only: offers held back until all are in */
     long deferred_puts, progress_calls;
     long exp_am;                       /* cumulative deliveries expected on the stream tags up to the current phase */
     int hang;
@@ -241,7 +242,8 @@ static int put_remote_done(parsec_comm_engine_t *e, parsec_ce_tag_t tag, void *m
     sample_fifos();
     if (src < 0 || src >= nproc || r.kind != 0 || r.id >= MAXX || !G->xf[0][src][r.id].used || r.requester != src) { fail("put completion for an unknown transfer (src %d id %u kind %u)", src, r.id, r.kind); return 1; }
     xfer_t *x = &G->xf[0][src][r.id];
-    if (G->n_put_tags[src] < MAXX) G->put_tags[src][G->n_put_tags[src]++] = (int)tag;
+    if (G->n_put_tags[src] < MAXX) { static const int code[4] = { 1, 4, 6, 0 };   /* put id range -> phase: A, D, F */
+        G->put_code[src][G->n_put_tags[src]] = code[(r.id / G->n_put) & 3]; G->put_tags[src][G->n_put_tags[src]++] = (int)tag; }
     if (++x->remote_done > 1) { fail("put %d<-%d id %d size %zu: remote completion signalled %d times", rank, src, x->id, x->size, x->remote_done); return 1; }
     if (msg_size != x->size) fail("put %d<-%d id %d: %zu bytes arrived, %zu requested", rank, src, x->id, msg_size, x->size);
     long d = first_diff(x->base + GUARD, x->size, seed_of(2, src, rank, 0, x->id), 0);
@@ -328,7 +330,8 @@ static void do_get(int src, const ctl_hdr_t *c, const uint8_t *handle)
     reg(x, x->base + GUARD);
     memcpy(x->rcopy, handle, handle_size);
     rcb_t r = { c->id, 2, c->size, rank, 0 };
-    if (G->n_get_tags[src] < MAXX) G->get_tags[src][G->n_get_tags[src]++] = (int)(my_xfer_calls & 0x7fffffff);
+    if (G->n_get_tags[src] < MAXX) { static const int code[4] = { 2, 3, 4, 6 };   /* get id range -> phase: B, C, D, E or F (F is the only one of the two with puts) */
+        G->get_code[src][G->n_get_tags[src]] = code[(c->id / G->n_put) & 3]; G->get_tags[src][G->n_get_tags[src]++] = (int)(my_xfer_calls & 0x7fffffff); }
     my_xfer_calls++;
     ce->get(ce, x->h, 0, (parsec_ce_mem_reg_handle_t)x->rcopy, 0, x->size, src, get_local_done, x, (parsec_ce_tag_t)c->cb_fn, &r, sizeof(r));
     sample_fifos();
@@ -354,7 +357,13 @@ static int ctl_cb(parsec_comm_engine_t *e, parsec_ce_tag_t tag, void *msg, size_
             if (G->pend_tail) G->pend_tail->next = p; else G->pend_head = p;
             G->pend_tail = p; G->deferred_puts++;
         }
-    } else if (c.op == OP_GET_OFFER) do_get(src, &c, handle);
+    } else if (c.op == OP_GET_OFFER) {
+        if (G->gets_hold_until > 0) {       /* reproducer of the recv-window deadlock: issue all gets at once, later */
+            pend_t *p = (pend_t *)calloc(1, sizeof(*p)); p->src = src; p->h = c; memcpy(p->handle, handle, handle_size);
+            if (G->gets_tail) G->gets_tail->next = p; else G->gets_head = p;
+            G->gets_tail = p; G->gets_held++;
+        } else do_get(src, &c, handle);
+    }
     else fail("control message from %d with op %u", src, c.op);
     return 1;
 }
@@ -378,6 +387,12 @@ static void wait_phase(void)
     double t0 = now();
     for (;;) {
         progress_once();
+        if (G->gets_hold_until > 0 && G->gets_held >= G->gets_hold_until) {
+            /* every rank holds all the offers addressed to it: all ranks issue all their gets before anybody progresses again */
+            MPI_Barrier(MPI_COMM_WORLD);
+            while (G->gets_head) { pend_t *p = G->gets_head; G->gets_head = p->next; do_get(p->src, &p->h, p->handle); free(p); }
+            G->gets_tail = NULL; G->gets_hold_until = 0;
+        }
         int done = G->am_delivered >= G->exp_am && G->pend_head == NULL;
         for (int k = 0; k < 4; k++) if (G->x_done[k] < G->x_expected[k]) done = 0;
         if (done) break;
@@ -393,13 +408,19 @@ static void wait_phase(void)
     }
 }
 static void emit(const char *status);
-static void checkpoint(const char *phase, long puts_to_serve, long gets_to_issue)
-{   /* survives a crash of the launch: which phase was running, and the data-tag ranges this rank will use in it */
+#define NODIR 9
+static void checkpoint(const char *phase, int putdir, int getdir, int cnt)
+{   /* survives a crash of the launch: which phase was running, this rank's next data tag, to whom it will send put data and
+     * from whom it will request get data in that phase (dir as in phase_put / phase_get; NODIR = none) */
     char fn[1200], fn2[1200];
     snprintf(fn, sizeof(fn), "%s/ckpt%d.json.tmp", outdir, rank); snprintf(fn2, sizeof(fn2), "%s/ckpt%d.json", outdir, rank);
     FILE *f = fopen(fn, "w");
     if (!f) return;
-    fprintf(f, "{\"rank\": %d, \"cfg\": [%d, %d, %d, %d], \"phase\": \"%s\", \"next_tag\": %ld, \"puts_to_serve\": %ld, \"gets_to_issue\": %ld}\n", rank, G->cfg[0], G->cfg[1], G->cfg[2], G->cfg[3], phase, my_xfer_calls, puts_to_serve, gets_to_issue);
+    fprintf(f, "{\"rank\": %d, \"cfg\": [%d, %d, %d, %d], \"phase\": \"%s\", \"next_tag\": %ld, \"serve_to\": [", rank, G->cfg[0], G->cfg[1], G->cfg[2], G->cfg[3], phase, my_xfer_calls);
+    for (int p = 0; p < nproc; p++) fprintf(f, "%s%d", p ? ", " : "", (p != rank && putdir != NODIR && (putdir == 0 || (putdir > 0 && p > rank) || (putdir < 0 && p < rank))) ? cnt : 0);
+    fprintf(f, "], \"get_from\": [");
+    for (int p = 0; p < nproc; p++) fprintf(f, "%s%d", p ? ", " : "", (p != rank && getdir != NODIR && (getdir == 0 || (getdir > 0 && p < rank) || (getdir < 0 && p > rank))) ? cnt : 0);
+    fprintf(f, "]}\n");
     fclose(f); rename(fn, fn2);
 }
 static void end_phase(void)
@@ -410,10 +431,6 @@ static void end_phase(void)
      * cumulative, so early messages of the next phase are simply counted). */
     MPI_Barrier(MPI_COMM_WORLD);
     for (int i = 0; i < 20; i++) progress_once();
-    for (int p = 0; p < nproc; p++) {
-        for (int a = 0; a < G->n_put_tags[p]; a++) for (int b = 0; b < G->n_get_tags[p]; b++) if (G->put_tags[p][a] == G->get_tags[p][b]) G->same_tag_same_direction++;
-        G->n_put_tags[p] = G->n_get_tags[p] = 0;
-    }
     if (G->nphase < 8) G->ptimes[G->nphase++] = now() - G->t_phase0;
     G->t_phase0 = now();
 }
@@ -567,6 +584,11 @@ static void flush_results(int complete)
 }
 static void emit(const char *status)
 {
+    /* put data that arrived from peer p and get data requested from peer p in the SAME phase with the same data tag */
+    G->same_tag_same_direction = 0;
+    for (int p = 0; p < nproc; p++)
+        for (int a = 0; a < G->n_put_tags[p]; a++) for (int b = 0; b < G->n_get_tags[p]; b++)
+            if (G->put_tags[p][a] == G->get_tags[p][b] && G->put_code[p][a] == G->get_code[p][b]) G->same_tag_same_direction++;
     for (char *p = G->failmsg; *p; p++) if (*p == '"' || *p == '\\' || (unsigned char)*p < 32) *p = '\'';
     acc_printf("%s{\"cfg\": [%d, %d, %d, %d], \"eff\": [%d, %d, %d, %d], \"big\": %d, \"mutual\": %d, \"status\": \"%s\", \"phase\": \"%s\", \"failures\": %d, \"message\": \"%s\",\n",
                nsess_written++ ? ",\n" : "", G->cfg[0], G->cfg[1], G->cfg[2], G->cfg[3], G->eff[0], G->eff[1], G->eff[2], G->eff[3], G->big, G->mutual, status, G->phase_name, G->nfail, G->failmsg);
@@ -639,19 +661,23 @@ static void run_config(const int cfg[4], int big, int mutual)
 
     int np = G->n_put;
     /* A: bursts of eager active messages between all pairs + puts between all pairs */
-    if (!only || only == 1) { checkpoint("A-short-am+put", 0, 0); phase_put("A-short-am+put", 0, np, 0); phase_short("A-short-am+put", 0); wait_phase(); end_phase(); }
+    if (!only || only == 1) { checkpoint("A-short-am+put", 0, NODIR, np); phase_put("A-short-am+put", 0, np, 0); phase_short("A-short-am+put", 0); wait_phase(); end_phase(); }
     /* B / C: rendezvous-size active messages and gets, flowing up the ranks, then down */
-    if (!only || only == 2) { checkpoint("B-long-am+get-up", 0, 0); phase_get("B-long-am+get-up", 0, np, +1); phase_long("B-long-am+get-up", +1); wait_phase(); end_phase(); }
-    if (!only || only == 3) { checkpoint("C-long-am+get-down", 0, 0); phase_get("C-long-am+get-down", np, np, -1); phase_long("C-long-am+get-down", -1); wait_phase(); end_phase(); }
+    if (!only || only == 2) { checkpoint("B-long-am+get-up", NODIR, +1, np); phase_get("B-long-am+get-up", 0, np, +1); phase_long("B-long-am+get-up", +1); wait_phase(); end_phase(); }
+    if (!only || only == 3) { checkpoint("C-long-am+get-down", NODIR, -1, np); phase_get("C-long-am+get-down", np, np, -1); phase_long("C-long-am+get-down", -1); wait_phase(); end_phase(); }
     /* D: everything at once: AM completions, handshakes and data requests share the Testsome array.  Put data flows up the
      * ranks, get data flows down: between two ranks, one direction never carries put data and get data at the same time
      * (their data tags come from different processes' counters: known finding C14-get-put-data-tag-collision). */
-    if (!only || only == 4) { checkpoint("D-mixed", 0, 0); phase_put("D-mixed", np, np, +1); phase_get("D-mixed", 2 * np, np, -1); phase_short("D-mixed", 1); wait_phase(); end_phase(); }
+    if (!only || only == 4) { checkpoint("D-mixed", +1, -1, np); phase_put("D-mixed", np, np, +1); phase_get("D-mixed", 2 * np, np, -1); phase_short("D-mixed", 1); wait_phase(); end_phase(); }
     /* E: every rank gets from every other rank at once (only where check.py asks for it) */
-    if ((mutual & 1) && (!only || only == 5)) { checkpoint("E-mutual-get", 0, 0); phase_get("E-mutual-get", 3 * np, np, 0); wait_phase(); end_phase(); }
+    if ((mutual & 1) && (!only || only == 5)) {
+        checkpoint("E-mutual-get", NODIR, 0, np);
+        if (mutual & 4) G->gets_hold_until = (long)np * (nproc - 1);
+        phase_get("E-mutual-get", 3 * np, np, 0); wait_phase(); end_phase();
+    }
     /* F (reproducer of the tag collision only): put data and get data in the same direction between the same ranks at once */
     if ((mutual & 2) && (!only || only == 6)) {
-        checkpoint("F-put+get-same-direction", (long)np * (nproc - 1 - rank), (long)np * rank);
+        checkpoint("F-put+get-same-direction", +1, +1, np);
         phase_put("F-put+get-same-direction", 2 * np, np, +1); phase_get("F-put+get-same-direction", 3 * np, np, +1); wait_phase(); end_phase();
     }
     if (!only) audit();
